@@ -52,7 +52,7 @@ struct FdState {
     std::atomic<uint8_t> inject{0};
     std::atomic<uint64_t> tx{0}, rx{0};         // bytes the kernel accepted / handed over
     std::atomic<uint32_t> eagain_tx{0}, eagain_rx{0};
-    uint64_t rng = 0;                           // touched only by the vCPU that owns the stream
+    std::atomic<uint64_t> rng{0};               // used only by the vCPU that owns the stream (relaxed: fds are reused across vCPUs)
 };
 static FdState g_fd[MAXFD];
 static uint32_t den_short = 8, den_eintr = 24, den_eagain = 24;
@@ -76,9 +76,10 @@ static void resolve() {
     if (!real_read) real_read = (read_t)dlsym(RTLD_NEXT, "read");
 }
 static inline uint64_t rnd(FdState& f) {
-    uint64_t x = f.rng;
+    uint64_t x = f.rng.load(vh::MO);
     x ^= x << 13; x ^= x >> 7; x ^= x << 17;
-    return f.rng = x;
+    f.rng.store(x, vh::MO);
+    return x;
 }
 static inline FdState* state_of(int fd) {
     if (fd < 0 || fd >= MAXFD) return nullptr;
@@ -142,7 +143,7 @@ static void reg(int fd, bool et, bool inject, uint64_t seed) {
     auto& f = g_fd[fd];
     f.tx.store(0, vh::MO); f.rx.store(0, vh::MO);
     f.eagain_tx.store(0, vh::MO); f.eagain_rx.store(0, vh::MO);
-    f.rng = seed | 1;
+    f.rng.store(seed | 1, vh::MO);
     f.inject.store(inject, vh::MO);
     f.test.store(et ? 2 : 1, std::memory_order_release);
 }
@@ -324,6 +325,16 @@ static struct Cfg {
 static std::vector<Conn*> g_conns;
 static std::atomic<int> g_server_ready{0}, g_server_port{0};
 static std::atomic<int> g_conns_served{0}, g_work_left{0};
+
+// breadcrumbs for an unexplained hang (never used for a verdict)
+enum { PH_CONNECT = 0, PH_HS_WRITE, PH_HS_READ, PH_ACCEPT, PH_JOIN, PH_SERVER_WAIT, PH_FINI, PH_CLOSE, PH_N };
+static const char* ph_name[] = {"connect", "handshake-write", "handshake-read", "accept", "join", "server-wait", "fini", "close"};
+static std::atomic<int> g_phase[PH_N];
+struct Phase {
+    int p;
+    explicit Phase(int p_) : p(p_) { g_phase[p].fetch_add(1, vh::MO); }
+    ~Phase() { g_phase[p].fetch_sub(1, vh::MO); }
+};
 
 static std::string dir_name(const Dir& D) { return D.d == 0 ? "c2s" : "s2c"; }
 static vh::JObj dir_witness(const Dir& D) {
@@ -720,15 +731,18 @@ static void run_side(Conn& c, int side) {
     join_handle* jh = nullptr;
     if (rd.exists) jh = thread_enable_join(thread_create(reader_entry, &rd, 256 * 1024));
     if (wd.exists) run_writer(wd);
+    Phase ph(PH_JOIN);
     if (jh) thread_join(jh);
 }
 // server end of one accepted stream
 static void serve_stream(ISocketStream* s, bool et) {
     int fd = s->get_underlay_fd();
+    vh::progress();
     shim::reg(fd, et, G.inject, vh::mix(vh::args().xseed(), 0x2000 + fd));
     uint32_t hs[2] = {0, 0};
     s->timeout(-1ULL);
-    ssize_t ret = s->read(hs, sizeof(hs));
+    ssize_t ret;
+    { Phase ph(PH_HS_READ); ret = s->read(hs, sizeof(hs)); }
     if (ret != (ssize_t)sizeof(hs) || hs[0] != HS_MAGIC || hs[1] >= (uint32_t)G.nconn || g_conns[hs[1]]->accepted.exchange(1)) {
         vh::violation("handshake/bad", "the 8-byte connection header written by the client did not arrive intact at the server",
                       vh::JObj().kv("returned", (int64_t)ret).kv("errno", errno).kv("magic", (uint64_t)hs[0]).kv("conn", (uint64_t)hs[1]).str());
@@ -751,6 +765,7 @@ static void serve_stream(ISocketStream* s, bool et) {
 static void* accepted_entry(void* a) {
     auto s = (ISocketStream*)a;
     serve_stream(s, G.v[0].et);
+    Phase ph(PH_CLOSE);
     delete s;
     return nullptr;
 }
@@ -766,7 +781,8 @@ struct Server {
     static void* acceptor_entry(void* a) {
         auto self = (Server*)a;
         for (int i = 0; i < G.nconn; ++i) {
-            auto s = self->srv->accept();
+            ISocketStream* s;
+            { Phase ph(PH_ACCEPT); s = self->srv->accept(); }
             if (!s) vh::machinery_failure("accept failed");
             self->jh.push_back(thread_enable_join(thread_create(accepted_entry, s, 256 * 1024)));
         }
@@ -789,8 +805,10 @@ struct Server {
             acceptor = thread_enable_join(thread_create(acceptor_entry, this, 256 * 1024));
         }
         g_server_ready.store(1, std::memory_order_release);
+        vh::progress();
     }
     void wait() {
+        Phase ph(PH_SERVER_WAIT);
         if (acceptor) thread_join(acceptor);
         for (auto h : jh) thread_join(h);
         while (g_conns_served.load(vh::MO) < G.nconn) thread_usleep(500);
@@ -804,12 +822,18 @@ static void* client_entry(void* a) {
     Conn& c = *(Conn*)a;
     vh::Rng r(vh::mix(vh::args().xseed(), 0x3000 + c.id));
     bool et = G.v[1].et;
+    vh::progress();
     thread_usleep(r.below(3000));
     auto cli = et ? new_et_tcp_socket_client() : (G.uds ? new_uds_client() : new_tcp_socket_client());
-    ISocketStream* s = G.uds ? cli->connect(G.uds_path.c_str()) : cli->connect(EndPoint(IPAddr::V4Loopback(), (uint16_t)g_server_port.load()));
+    ISocketStream* s;
+    {
+        Phase ph(PH_CONNECT);
+        s = G.uds ? cli->connect(G.uds_path.c_str()) : cli->connect(EndPoint(IPAddr::V4Loopback(), (uint16_t)g_server_port.load()));
+    }
     if (!s) vh::machinery_failure(std::string("connect failed: ") + strerror(errno));
     delete cli;
     int fd = s->get_underlay_fd();
+    vh::progress();
     shim::reg(fd, et, G.inject, vh::mix(vh::args().xseed(), 0x2800 + fd));
     Side& S = c.side[0];
     S.s = s; S.et = et;
@@ -817,7 +841,8 @@ static void* client_entry(void* a) {
     apply_bufs(s, S);
     uint32_t hs[2] = {HS_MAGIC, (uint32_t)c.id};
     s->timeout(-1ULL);
-    ssize_t ret = s->write(hs, sizeof(hs));
+    ssize_t ret;
+    { Phase ph(PH_HS_WRITE); ret = s->write(hs, sizeof(hs)); }
     if (ret != (ssize_t)sizeof(hs)) {
         vh::violation("handshake/write", "writing the 8-byte connection header failed", vh::JObj().kv("returned", (int64_t)ret).kv("errno", errno).str());
     } else {
@@ -828,7 +853,7 @@ static void* client_entry(void* a) {
     }
     S.fd.store(-1, vh::MO);
     shim::unreg(fd);
-    delete s;
+    { Phase ph(PH_CLOSE); delete s; }
     g_work_left.fetch_sub(1, vh::MO);
     vh::progress();
     return nullptr;
@@ -857,6 +882,7 @@ static void vcpu_main(int v) {
         if (photon::init(vc.engine, vc.et ? INIT_IO_SOCKET_EDGE_TRIGGER : INIT_IO_NONE) < 0)
             vh::machinery_failure("photon::init failed");
     }
+    vh::progress();
     {
         Server server;
         bool is_server = v == 0, is_client = G.nv == 1 || v == 1;
@@ -868,11 +894,16 @@ static void vcpu_main(int v) {
             for (auto c : g_conns) jh.push_back(thread_enable_join(thread_create(client_entry, c, 256 * 1024)));
         }
         for (auto h : jh) thread_join(h);
+        vh::progress();
         if (is_server) server.wait();
+        vh::progress();
         thread_join(st);
+        vh::progress();
     }
     std::lock_guard<std::mutex> g(g_init_mu);
+    Phase ph(PH_FINI);
     photon::fini();
+    vh::progress();
 }
 
 // ================================================================== stuck detector
@@ -947,7 +978,17 @@ static bool on_stuck(std::string& key, std::string& what, std::string& wit) {
             }
         }
     wit = blocked.str();
-    if (!proved) { key = "sock-workload"; what = "no call completed; blocked=" + wit.substr(0, 1500); }
+    if (!proved) {
+        std::string ph;
+        for (int i = 0; i < PH_N; ++i) if (g_phase[i].load()) ph += std::string(ph_name[i]) + ":" + std::to_string(g_phase[i].load()) + " ";
+        key = "sock-workload";
+        what = "no call completed; threads in [" + ph + "] served=" + std::to_string(g_conns_served.load()) + " clients_left=" + std::to_string(g_work_left.load()) +
+               " blocked=" + wit.substr(0, 1500);
+        if (vh::args().geti("stuck_pause", 0)) {        // debugging aid: keep the process for a debugger
+            fprintf(stderr, "[h_sock] stuck: %s (pid %d)\n", what.c_str(), (int)getpid());
+            sleep((unsigned)vh::args().geti("stuck_pause", 0));
+        }
+    }
     return proved;
 }
 
@@ -1002,7 +1043,10 @@ int main(int argc, char** argv) {
     budget /= A.shape_div();
     if (vh::is_tsan()) budget /= 4;
     if (!vh::is_asan() && !vh::is_tsan()) budget *= 2;
-    uint64_t max_ops = A.geti("ops", A.thorough() ? 1500 : 300);
+    uint64_t max_ops = A.geti("ops", A.thorough() ? 1200 : 240);
+    // confined to one or two cores every sleep-paced call costs the same wall time: fewer calls and connections
+    if (A.shape_div() >= 10) { max_ops /= 4; G.nconn = std::min(G.nconn, 20); }
+    else if (A.shape_div() >= 4) max_ops /= 2;
     // scratch directory / UDS path
     std::string dir = A.scratch.empty() ? std::string("/tmp") : A.scratch;
     mkdir(dir.c_str(), 0755);
@@ -1011,7 +1055,7 @@ int main(int argc, char** argv) {
     unlink(G.uds_path.c_str());
 
     // ---- per-connection plans
-    uint64_t per_dir = std::max<uint64_t>(budget / (2 * G.nconn), 2000);
+    uint64_t per_dir = std::min<uint64_t>(std::max<uint64_t>(budget / (2 * G.nconn), 2000), A.thorough() ? 400000 : 100000);
     for (int i = 0; i < G.nconn; ++i) {
         auto c = new Conn;
         c->id = i;
